@@ -407,3 +407,15 @@ package parser
 //@   loop 0 invariant editsInRange(out, nlines(input))
 //@   loop 0 invariant forall i int :: 0 <= i && i < len(out) ==> out[i].ToLine <= (lastEnd < 0 ? 0 : lastEnd)
 //@   loop 0 invariant editsAscending(out)
+
+// ---- every gap between two fragments ends up as one empty line (C19: edits equal the formatter) ------------------
+// The formatter writes a single empty line wherever two consecutive fragments are not adjacent. The edit
+// list must do the same: either an edit replaces the whole gap by "\n", or the gap already reads "\n"
+// (one line, holding nothing — not even whitespace). linesText NAMES what rangeLines returns
+// (definitional free postcondition; the line table is not written after it is built).
+//@ spec func linesText(ls *lineSet, from int, to int) string
+//@ func (*lineSet).rangeLines
+//@   free ensures named: result == linesText(ls, from, to)
+//@ func FmtDiffs
+//@   assert at rangeLines#1 gap: idx > 0 && arg1 > lastEnd ==>
+//@   |   (len(out) > 0 && out[len(out)-1].FromLine == lastEnd && out[len(out)-1].ToLine == arg1 && out[len(out)-1].NewText == "\n") || linesText(lines, lastEnd, arg1) == "\n"
